@@ -14,6 +14,13 @@
 // pool is emptied at the start of each scenario (two garbage collections empty a sync.Pool); inside a scenario
 // the contexts circulate as they do in production.
 //
+// "reload" loads the outlier rule of one resource of the scenario AGAIN in the middle of the history: with another
+// MaxEjectionPercent / EnableActiveRecovery / RecycleIntervalS / RecoveryIntervalMs / MaxRecoveryAttempts (or with
+// nothing changed), the embedded circuit-breaker rule being the same ("clear": false), or after clearing the rule
+// ("clear": true: ClearRuleOfResource / a LoadRules without it, then the load - any rule).  "via" selects the public
+// entry point: "res" = outlier.LoadRuleOfResource, "all" = outlier.LoadRules with every rule this process has loaded
+// (the rules of finished scenarios must stay).  The trace records the rule in force afterwards.
+//
 // usage: c20 <scenarios.ndjson> <trace.ndjson>
 package main
 
@@ -89,9 +96,70 @@ type run struct {
 	chain   *base.SlotChain
 	entries map[int64]*base.SentinelEntry
 	h       *health
+	cfgs    []hx.M    // cfgs[k-1] = rule, pct, active of resource k NOW in force
+	params  []*params // the rule fields the specification abstracts from
 	started time.Time // real time of the first request that may have armed a recycle timer
 	armed   bool
 	recycle time.Duration
+}
+
+// the fields of an outlier rule that the specification abstracts from (they select timers, not answers)
+type params struct {
+	recycleS uint32
+	recovMs  uint32
+	attempts uint32
+	nocheck  bool // RecoveryCheckFunc nil (passive resources only: the library's default dials the address)
+}
+
+// every rule this process has loaded and not cleared (outlier.LoadRules replaces ALL rules)
+var (
+	allRules = map[string]*outlier.Rule{}
+	allOrder []string
+)
+
+func remember(name string, rule *outlier.Rule) {
+	if _, ok := allRules[name]; !ok {
+		allOrder = append(allOrder, name)
+	}
+	allRules[name] = rule
+}
+
+func everyRule(except string) []*outlier.Rule {
+	var l []*outlier.Rule
+	for _, n := range allOrder {
+		if n != except && allRules[n] != nil {
+			l = append(l, allRules[n])
+		}
+	}
+	return l
+}
+
+func buildRule(name string, c hx.M, p *params, h *health) *outlier.Rule {
+	rl := c["rule"].(map[string]interface{})
+	thr := arr(rl, "thr")
+	pct := arr(c, "pct")
+	rule := &outlier.Rule{
+		Rule: &circuitbreaker.Rule{
+			Resource:                     name,
+			Strategy:                     strategies[hx.Str(rl, "strategy")],
+			RetryTimeoutMs:               uint32(hx.Int(rl, "timeout")),
+			MinRequestAmount:             uint64(hx.Int(rl, "minAmt")),
+			StatIntervalMs:               uint32(hx.Int(rl, "I")),
+			StatSlidingWindowBucketCount: uint32(hx.Int(rl, "nb")),
+			MaxAllowedRtMs:               uint64(hx.Int(rl, "maxRt")),
+			Threshold:                    thr[0].(float64) / thr[1].(float64),
+			ProbeNum:                     uint64(hx.Int(rl, "probeNum")),
+		},
+		EnableActiveRecovery: c["active"] == true,
+		MaxEjectionPercent:   pct[0].(float64) / pct[1].(float64),
+		RecoveryIntervalMs:   p.recovMs,
+		RecycleIntervalS:     p.recycleS, // 0 = the library's default of ten minutes: never fires during a run
+		MaxRecoveryAttempts:  p.attempts,
+	}
+	if !p.nocheck || c["active"] == true {
+		rule.RecoveryCheckFunc = h.check
+	}
+	return rule
 }
 
 // observe sends one request and returns filter and half-open sets (the entry exits without a callee:
@@ -210,34 +278,17 @@ func main() {
 					name = fmt.Sprintf("svc-%d-r%d", r.tr, k+1)
 				}
 				r.names = append(r.names, name)
-				rl := c["rule"].(map[string]interface{})
-				thr := arr(rl, "thr")
-				pct := arr(c, "pct")
-				rule := &outlier.Rule{
-					Rule: &circuitbreaker.Rule{
-						Resource:                     name,
-						Strategy:                     strategies[hx.Str(rl, "strategy")],
-						RetryTimeoutMs:               uint32(hx.Int(rl, "timeout")),
-						MinRequestAmount:             uint64(hx.Int(rl, "minAmt")),
-						StatIntervalMs:               uint32(hx.Int(rl, "I")),
-						StatSlidingWindowBucketCount: uint32(hx.Int(rl, "nb")),
-						MaxAllowedRtMs:               uint64(hx.Int(rl, "maxRt")),
-						Threshold:                    thr[0].(float64) / thr[1].(float64),
-						ProbeNum:                     uint64(hx.Int(rl, "probeNum")),
-					},
-					EnableActiveRecovery: c["active"] == true,
-					MaxEjectionPercent:   pct[0].(float64) / pct[1].(float64),
-					RecoveryIntervalMs:   recov,
-					RecycleIntervalS:     recS, // 0 = the library's default of ten minutes: never fires during a run
-					MaxRecoveryAttempts:  3,
-					RecoveryCheckFunc:    r.h.check,
-				}
+				p := &params{recycleS: recS, recovMs: recov, attempts: 3, nocheck: s["nocheck"] == true}
+				r.params = append(r.params, p)
+				rule := buildRule(name, c, p, r.h)
 				// Rules of earlier scenarios stay loaded (fresh resource names per scenario): the library's retryer /
 				// recycler goroutines look the rule up asynchronously and crash the process on a rule that is gone.
 				if _, err := outlier.LoadRuleOfResource(name, rule); err != nil {
 					fatal("trace %d: LoadRuleOfResource: %v", r.tr, err)
 				}
+				remember(name, rule)
 			}
+			r.cfgs = cfgs
 			r.res = r.names[0]
 			// empty the pool of entry contexts: the scenario does not depend on what earlier scenarios left in it
 			// (needed only if some entry since the last time was told a non-empty list: every entry is ours, and
@@ -301,6 +352,63 @@ func main() {
 		case "tick":
 			clk.AdvanceMs(hx.Int(s, "d"))
 			tr.Emit(hx.M{"op": "tick", "t": clk.NowMs() - r.base})
+		case "reload":
+			k := resNo(s) - 1
+			name := r.name(s)
+			cur, p := r.cfgs[k], r.params[k]
+			next := hx.M{"rule": cur["rule"], "pct": cur["pct"], "active": cur["active"]}
+			if v, ok := s["rule"]; ok && v != nil {
+				next["rule"] = v
+			}
+			if v, ok := s["pct"]; ok && v != nil {
+				next["pct"] = v
+			}
+			if v, ok := s["active"]; ok {
+				next["active"] = v == true
+			}
+			if _, ok := s["recycle_s"]; ok {
+				p.recycleS = uint32(hx.Int(s, "recycle_s"))
+			}
+			if _, ok := s["recov_ms"]; ok {
+				p.recovMs = uint32(hx.Int(s, "recov_ms"))
+			}
+			if _, ok := s["attempts"]; ok {
+				p.attempts = uint32(hx.Int(s, "attempts"))
+			}
+			rule := buildRule(name, next, p, r.h)
+			clear := s["clear"] == true
+			via := hx.Str(s, "via")
+			if via == "" {
+				via = "res"
+			}
+			if clear {
+				// A request hands its rejecting nodes to the recycler / retryer goroutines through a channel; a task taken
+				// while the rule is gone builds a recycler without interval (fires at once) / a retryer without check
+				// function (crashes the process).  Let queued tasks be taken first: that race is not the subject here.
+				time.Sleep(20 * time.Millisecond)
+				var err error
+				if via == "all" {
+					_, err = outlier.LoadRules(everyRule(name))
+				} else {
+					err = outlier.ClearRuleOfResource(name)
+				}
+				if err != nil {
+					fatal("trace %d: clearing the rule of %s: %v", r.tr, name, err)
+				}
+			}
+			remember(name, rule)
+			var err error
+			if via == "all" {
+				_, err = outlier.LoadRules(everyRule(""))
+			} else {
+				_, err = outlier.LoadRuleOfResource(name, rule)
+			}
+			if err != nil {
+				fatal("trace %d: reload of %s: %v", r.tr, name, err)
+			}
+			r.cfgs[k] = next
+			tr.Emit(hx.M{"op": "reload", "res": k + 1, "rule": next["rule"], "pct": next["pct"], "active": next["active"], "clear": clear,
+				"via": via, "recycle_s": p.recycleS, "recov_ms": p.recovMs})
 		case "active":
 			// wait until the retryer asked for the node's health and was told "healthy" (real timer)
 			node := hx.Str(s, "node")
